@@ -251,7 +251,7 @@ def immOp (working : Nat) (c : OT) (args : List String) : String :=
       | .list l =>
         let (l', st) := cutAt (stopOf rest) l
         let vers := l'.map fun p => match c with
-          | some t => toString ((leafVer t p.1).getD 0)
+          | some t => toString ((leafVer t p.1).getD working)   -- an uncommitted leaf belongs to the version being built
           | none => "0"
         fmtPairs l' ++ " stopped=" ++ b2s st ++ " vers=" ++ ",".intercalate vers
       | _ => "bad"
